@@ -2050,7 +2050,7 @@ impl<Target> StaticCompressor<Target> {
 
     /// Inserts the position of a new domain name if possible.
     fn insert(&mut self, pos: usize) -> bool {
-        if pos < 0xc000 && self.len < self.entries.len() {
+        if pos < 0x4000 && self.len < self.entries.len() {
             self.entries[self.len] = pos as u16;
             self.len += 1;
             true
@@ -2264,7 +2264,7 @@ impl<Target> TreeCompressor<Target> {
         name: N,
         pos: usize,
     ) -> bool {
-        if pos >= 0xC000 {
+        if pos >= 0x4000 {
             return false;
         }
         let pos = pos as u16;
@@ -2457,7 +2457,7 @@ struct HashEntry {
 impl HashEntry {
     /// Try constructing a [`HashEntry`].
     fn new(head: usize, tail: usize) -> Option<Self> {
-        if head < 0xC000 {
+        if head < 0x4000 {
             Some(Self {
                 head: head as u16,
                 tail: tail as u16,
@@ -2600,7 +2600,7 @@ impl<Target: Composer> Composer for HashCompressor<Target> {
 
             // Remember this label for future compression, if possible.
             //
-            // If some labels in this name pass the 0xC000 boundary point, then
+            // If some labels in this name pass the 0x4000 boundary point, then
             // none of its remembered labels can be used (since they are looked
             // up from right to left, and the rightmost ones will fail first).
             // We could check more thoroughly for this, but it's not worth it.
